@@ -1141,9 +1141,11 @@ func (a *Authenticator) validateTokenTiming(claims map[string]interface{}, confi
 			return fmt.Errorf("JWT iat claim is not a valid timestamp")
 		}
 
-		age := now - iatTime
-		if maxAge > 0 && age > maxAge {
-			return fmt.Errorf("token age (%d) is greater than max age (%d)", age, maxAge)
+		// Compare against now-maxAge instead of computing now-iat first: for an
+		// iat near the minimum int64 the subtraction overflows to a negative
+		// "age" and an infinitely old token would pass the check.
+		if maxAge > 0 && iatTime < now-maxAge {
+			return fmt.Errorf("token issued at %d is older than max age (%d)", iatTime, maxAge)
 		}
 	}
 
